@@ -1,4 +1,4 @@
-import TF.Proofs.Lattice
+import TF.Proofs.LatticeFinal
 /-!
 # C18 — lattice ring product is negacyclic convolution; KEM correct, rejects tampering
 
@@ -36,6 +36,17 @@ theorem ring_ops_coefficientwise (a b : Ring) (i : Nat) (hi : i < 64) :
     (ringAdd a b).size = 64 :=
   ⟨ringZip_get _ a b i hi, ringZip_get _ a b i hi, ringZip_get _ a b i hi, ringZip_size _ a b⟩
 example : (63 : Nat) < 64 := by decide
+
+/-- **Ring multiplication is negacyclic convolution**: for all pairs of ring elements (`F_p^64` each),
+    `CyclotomicRingElement::mul` — coset-NTT of both operands with the tabulated powers of ψ, coefficient-wise product,
+    inverse coset-NTT with the inverse table and `N_INV` — equals the schoolbook product modulo `X^64 + 1`.
+    (Proof: the butterfly network with a table whose entries square to their block constants evaluates the input at
+    64 roots of `X^64 + 1` [stage invariant, all `L`]; each inverse stage undoes a forward stage up to the factor 2;
+    evaluation at a root of `X^n + 1` is multiplicative for negacyclic convolution; the table relations are decided in
+    the kernel on the translated tables.) -/
+theorem ring_mul_is_negacyclic (a b : Ring) (ha : a.size = 64) (hb : b.size = 64) : ringMul a b = negacyclic a b :=
+  ringMul_eq_negacyclic a b ha hb
+example : (Array.replicate 64 1 : Ring).size = 64 := by decide
 
 /-- **`dec` accepts exactly re-encryptions**: for every pair of hash functions, every secret key and every
     ciphertext, `dec sk c = some k` iff `c` is the ciphertext generated from the public key re-derived from `sk` and the
